@@ -208,3 +208,14 @@ type Decodable interface {
 func (d *Decoder) SetHashSegmentMap(hashSegmentMap HashSegmentMap) {
 	d.HashSegmentMap = hashSegmentMap
 }
+
+// checkSequenceLength rejects a decoded element count that the remaining input cannot hold.
+// Every element of every sequence and dictionary occupies at least one byte on the wire, so a
+// larger count can only come from a corrupt or hostile length prefix; checking it here keeps
+// the allocation made for the elements proportional to the input.
+func (d *Decoder) checkSequenceLength(length uint64) error {
+	if length > uint64(d.buf.Len()) {
+		return fmt.Errorf("sequence length %d exceeds the remaining %d bytes", length, d.buf.Len())
+	}
+	return nil
+}
